@@ -14,7 +14,8 @@
     Several ranks: [split_sender_has_colour] -- for every communicator size and number of components, the rank the distribution loop
     broadcasts a component from is a rank of the communicator that has the component's colour (so it did compute it), whenever that
     colour has a rank at all (C06: every_colour_nonempty_float); [split_sender_has_colour_upto_24]: without that hypothesis, complete
-    check for P, n <= 24 by evaluation (primitive floats).
+    check for P, n <= 24 by evaluation (primitive floats).  [split_every_rank_ready]: on every rank computeAll_split then returns
+    normally and leaves every prepared component that has parts Computed (computed by the rank, or marked in the distribution loop).
     Layer 3: the theorems of Container4Proofs transported to the [..._src] definitions; props/Properties_C13_source.v states them.
 
     No axioms. *)
@@ -456,6 +457,147 @@ Proof.
   unfold split_sender, split_proc_color, split_elem_color. split; [lia|]. apply Z.eqb_eq. exact H3.
 Qed.
 
+
+(** * Several ranks: what rank [rank] of [P] holds after computeAll_split *)
+
+Lemma fold_filter {A B} (c : B -> bool) (F : A -> B -> A) : forall (l : list B) (x : A),
+  fold_left (fun x b => if c b then F x b else x) l x = fold_left F (filter c l) x.
+Proof. induction l as [|b t IH]; intro x; [reflexivity|]. cbn [fold_left filter]. destruct (c b); cbn [fold_left]; apply IH. Qed.
+
+Lemma computed_mono (el el' : estore) (e : nat) : store_le el el' -> computed_in el e -> computed_in el' e.
+Proof.
+  intros [_ L] [q H]. destruct (L _ _ _ H) as [s [H' O]]. apply status_leb_Computed in O. subst s. exists q. exact H'.
+Qed.
+
+(** chi.setStatus(Computed) on a state without pending exception *)
+Lemma set_status_spec (e : nat) (s : cstate) :
+  exists el', set_status_src e (s, OUnit) = (with_elems s el', OUnit) /\ store_le (elems s) el' /\
+              ((e < length (elems s))%nat -> computed_in el' e).
+Proof.
+  unfold set_status_src. cbn [fst snd]. destruct (nth_error (elems s) e) as [[q st0]|] eqn:E.
+  - exists (upd e (q, Computed) (elems s)). split; [reflexivity|]. split.
+    + eapply store_le_upd; [exact E|]. destruct st0; reflexivity.
+    + intros L. exists q. apply nth_error_upd_same. exact L.
+  - exists (elems s). split; [reflexivity|]. split; [apply store_le_refl|]. intros L. apply nth_error_None in E. lia.
+Qed.
+
+(** the loop over the parts of one component on a rank other than the sender *)
+Lemma mark_loop (e : nat) (r : list Z) : forall s : cstate,
+  exists el', fold_left (fun x (_ : Z) => set_status_src e x) r (s, OUnit) = (with_elems s el', OUnit) /\ store_le (elems s) el' /\
+              (r <> [] -> (e < length (elems s))%nat -> computed_in el' e).
+Proof.
+  induction r as [|j t IH]; intros s.
+  - exists (elems s). rewrite with_elems_eta. split; [reflexivity|]. split; [apply store_le_refl|]. intros N. exfalso. apply N. reflexivity.
+  - cbn [fold_left]. destruct (set_status_spec e s) as [el1 [E1 [L1 C1]]]. rewrite E1.
+    destruct (IH (with_elems s el1)) as [el2 [E2 [L2 C2]]]. cbn [with_elems elems] in *. exists el2.
+    split; [exact E2|]. split; [eapply store_le_trans; eassumption|]. intros _ Hl. eapply computed_mono; [exact L2|]. apply C1. exact Hl.
+Qed.
+
+Section Rank.
+Variables P rank n : Z.
+Variable np : nat -> Z.
+
+(** the distribution loop over a list of components *)
+Lemma distribute_loop : forall (l : list (Z * (quad * nat))) (s : cstate),
+  exists el', fold_left (split_distribute_body P rank n np) l (s, OUnit) = (with_elems s el', OUnit) /\ store_le (elems s) el' /\
+              forall ckv, In ckv l -> rank <> split_sender P n (fst ckv) -> 0 < np (snd (snd ckv)) ->
+                          (snd (snd ckv) < length (elems s))%nat -> computed_in el' (snd (snd ckv)).
+Proof.
+  induction l as [|ckv t IH]; intros s.
+  - exists (elems s). rewrite with_elems_eta. split; [reflexivity|]. split; [apply store_le_refl|]. intros ckv [].
+  - cbn [fold_left]. unfold split_distribute_body at 2.
+    destruct (Z.eqb rank (split_sender P n (fst ckv))) eqn:B; cbn [negb].
+    + rewrite fold_left_id. destruct (IH s) as [el' [E [L C]]]. exists el'. split; [exact E|]. split; [exact L|].
+      intros c [<-|I] Hr; [apply Z.eqb_eq in B; contradiction|apply C; assumption].
+    + destruct (mark_loop (snd (snd ckv)) (gen_zrange 0 (np (snd (snd ckv)))) s) as [el1 [E1 [L1 C1]]]. rewrite E1.
+      destruct (IH (with_elems s el1)) as [el2 [E2 [L2 C2]]]. cbn [with_elems elems] in *. exists el2.
+      split; [exact E2|]. split; [eapply store_le_trans; eassumption|].
+      intros c [<-|I] Hr Hp Hl.
+      * eapply computed_mono; [exact L2|]. apply C1; [|exact Hl]. intros N.
+        assert (In 0 (gen_zrange 0 (np (snd (snd ckv))))) as I0 by (apply zrange_In; lia). rewrite N in I0. exact I0.
+      * apply C2; try assumption. destruct L1 as [Len _]. rewrite <- Len. exact Hl.
+Qed.
+End Rank.
+
+
+Lemma combine_seq_In {A} (f : nat -> Z) (x : A) : forall (l : list A) (a : nat),
+  In x l -> exists k, (k < length l)%nat /\ In (f (a + k)%nat, x) (combine (map f (seq a (length l))) l).
+Proof.
+  induction l as [|y t IH]; intros a I; [destruct I|]. cbn [length seq map combine]. destruct I as [<-|I].
+  - exists 0%nat. split; [lia|]. left. rewrite Nat.add_0_r. reflexivity.
+  - destruct (IH (S a) I) as [k [Hk Hin]]. exists (S k). split; [lia|]. right. replace (a + S k)%nat with (S a + k)%nat by lia. exact Hin.
+Qed.
+
+Lemma zindexed_In {A} (x : A) (l : list A) :
+  In x l -> exists i, 0 <= i < Z.of_nat (length l) /\ In (i, x) (gen_zindexed l).
+Proof.
+  intros I. unfold gen_zindexed, gen_zrange. replace (Z.to_nat (Z.of_nat (length l) - 0)) with (length l) by lia.
+  destruct (combine_seq_In (fun k => 0 + Z.of_nat k) x l 0%nat I) as [k [Hk Hin]]. exists (0 + Z.of_nat (0 + k)). split; [lia|exact Hin].
+Qed.
+
+Lemma zindexed_snd_In {A} (c : Z * A) (l : list A) : In c (gen_zindexed l) -> In (snd c) l.
+Proof. intros I. rewrite <- (zindexed_values l). apply in_map. exact I. Qed.
+
+(** Every rank, every communicator size: when every component of NonTrivialElements has been prepared and every sender has its
+    component's colour, computeAll_split returns normally on this rank, changes neither map, lowers no status, and leaves every component
+    that has parts Computed -- computed by this rank (its colour) or marked in the distribution loop (another colour: the sender is then
+    another rank). *)
+Theorem split_every_rank_ready : forall (P rank : Z) (np : nat -> Z) (st : cstate),
+  (forall e, In e (nontriv_ids st) -> exists q s, nth_error (elems st) e = Some (q, s) /\ status_leb Prepared s = true) ->
+  (forall comp, 0 <= comp < Z.of_nat (length (nontriv st)) ->
+     split_proc_color P (Z.of_nat (length (nontriv st))) (split_sender P (Z.of_nat (length (nontriv st))) comp) =
+     split_elem_color P (Z.of_nat (length (nontriv st))) comp) ->
+  exists el', compute_all_split_src P rank np st = (with_elems st el', OUnit) /\ store_le (elems st) el' /\
+              forall k e, In (k, e) (nontriv st) -> 0 < np e -> computed_in el' e.
+Proof.
+  intros P rank np st H0 Hs. rewrite gen_computeAll_split_is_model. cbv zeta.
+  set (n := Z.of_nat (length (nontriv st))) in *.
+  set (c := fun ckv : Z * (quad * nat) => Z.eqb (split_elem_color P n (fst ckv)) (split_proc_color P n rank)).
+  rewrite (fold_left_ext (split_compute_body P rank n)
+             (fun x ckv => if c ckv then (fun x ckv => lift_step compute_elem (snd (snd ckv)) x) x ckv else x)) by reflexivity.
+  rewrite fold_filter. rewrite (lift_fold_entries compute_elem (fun ckv : Z * (quad * nat) => snd (snd ckv))).
+  set (ids1 := map (fun ckv : Z * (quad * nat) => snd (snd ckv)) (filter c (gen_zindexed (nontriv st)))).
+  assert (Sub : forall e, In e ids1 -> In e (nontriv_ids st)).
+  { intros e I. apply in_map_iff in I. destruct I as [ckv [<- I]]. apply filter_In in I. destruct I as [I _].
+    unfold nontriv_ids. apply in_map. apply zindexed_snd_In. exact I. }
+  pose proof (run_seq_compute_ok ids1 (elems st) (fun e I => H0 e (Sub e I))) as O1.
+  destruct (run_seq compute_elem ids1 (elems st)) as [el1 o1] eqn:R1. cbn [snd] in O1. subst o1.
+  pose proof (run_seq_le _ compute_elem_le _ _ _ _ R1) as L1.
+  change (xnontriv (with_elems st el1, OUnit)) with (nontriv st).
+  destruct (distribute_loop P rank n np (gen_zindexed (nontriv st)) (with_elems st el1)) as [el2 [E2 [L2 C2]]].
+  cbn [with_elems elems] in *. rewrite E2. exists el2. split; [reflexivity|]. split; [eapply store_le_trans; eassumption|].
+  intros k e I Hp. destruct (zindexed_In (k, e) (nontriv st) I) as [comp [Hc Hin]].
+  destruct (c (comp, (k, e))) eqn:B.
+  - eapply computed_mono; [exact L2|]. apply (run_seq_compute_unit ids1 (elems st) el1 R1).
+    unfold ids1. apply in_map_iff. exists (comp, (k, e)). split; [reflexivity|]. apply filter_In. split; assumption.
+  - apply (C2 (comp, (k, e)) Hin); cbn [fst snd]; [|exact Hp|].
+    + intros Er. unfold c in B. cbn [fst] in B. rewrite <- (Hs comp Hc), <- Er, Z.eqb_refl in B. discriminate B.
+    + destruct (H0 e) as [q [s [En _]]]; [unfold nontriv_ids; apply in_map_iff; exists (k, e); split; [reflexivity|exact I]|].
+      destruct L1 as [Len _]. rewrite <- Len. apply nth_error_Some. congruence.
+Qed.
+
+(** ... with the sender hypothesis discharged by evaluation for up to 24 ranks and 24 components *)
+Theorem split_every_rank_ready_upto_24 : forall (P rank : Z) (np : nat -> Z) (st : cstate),
+  1 <= P <= 24 -> (length (nontriv st) <= 24)%nat ->
+  (forall e, In e (nontriv_ids st) -> exists q s, nth_error (elems st) e = Some (q, s) /\ status_leb Prepared s = true) ->
+  exists el', compute_all_split_src P rank np st = (with_elems st el', OUnit) /\ store_le (elems st) el' /\
+              forall k e, In (k, e) (nontriv st) -> 0 < np e -> computed_in el' e.
+Proof.
+  intros P rank np st HP Hn H0. apply split_every_rank_ready; [exact H0|].
+  intros comp Hc. apply split_sender_has_colour_upto_24; lia.
+Qed.
+
+(** the hypotheses are satisfiable and the conclusion is not vacuous: three ranks, two prepared components with parts, rank 0 *)
+Example split_every_rank_example :
+  let st := fst (prepare_all_src 2 init [(0, 0, 0, 0)%nat; (0, 1, 0, 1)%nat]) in
+  nontriv_ids st = [0%nat; 1%nat] /\
+  (forall e, In e (nontriv_ids st) -> exists q s, nth_error (elems st) e = Some (q, s) /\ status_leb Prepared s = true) /\
+  map snd (elems (fst (compute_all_split_src 3 0 (fun _ => 1) st))) = [Computed; Computed] /\
+  map snd (elems (fst (compute_all_split_src 3 2 (fun _ => 1) st))) = [Computed; Computed].
+Proof.
+  cbv zeta. split; [vm_compute; reflexivity|]. split; [|split; vm_compute; reflexivity].
+  intros e I. vm_compute in I. destruct I as [<-|[<-|[]]]; vm_compute; eexists; eexists; split; reflexivity.
+Qed.
 
 (** * Layer 3: the theorems of C13 about the definitions built from the generated functions *)
 
